@@ -126,6 +126,19 @@ Example break_keeps_pending_depth :
   mout t_lazy_then_break ctx_new = Some (B "abz", None) /\ rout t_lazy_then_break ctx_new = (B "abz", SNone).
 Proof. vm_compute. split; reflexivity. Qed.
 
+(* F10. an if-ok block in the negated form (!ok) whose flag variable is not a plain name: the
+   extended condition looks the flag up again AS A PATH (first segment "o" of "o.k"; nothing for
+   the empty name), so it does not see the flag it has just set; the reference semantics
+   branches on the flag itself.  (The parser takes the names from the header as written; whether
+   it can produce such names is a question for the real code.) *)
+Definition c_ifok := ctx_set (B "u") (VStr (B "bob")) false (ctx_set (B "e") (VStr []) false ctx_new).
+Definition t_ifok_dotted := [AIfOK (B "v") (B "o.k") (B "e") false true [AText (B "T")] [AText (B "F")] true].
+Definition t_ifok_noname := [AIfOK (B "v") [] (B "e") false true [AText (B "T")] [AText (B "F")] true].
+Example F10_ifok_negated_flag_not_a_name :
+  mout t_ifok_dotted c_ifok = Some (B "F", None) /\ rout t_ifok_dotted c_ifok = (B "T", SNone) /\
+  mout t_ifok_noname c_ifok = Some (B "F", None) /\ rout t_ifok_noname c_ifok = (B "T", SNone).
+Proof. vm_compute. repeat split. Qed.
+
 (* ------------------------------------------------------------------ the unrestricted statement *)
 
 Definition sig_rel0 (s : sig) (eo : option err) : Prop :=
@@ -184,6 +197,8 @@ Definition t_sample : list ast :=
     AIf (cnd "user.age" "18" false true OpGtq) [AText (B " adult")] [AText (B " minor")] true;
     ASwitch (B "user.name") [ACase (cnd "alice" "" true false OpUnk) [AText (B " A")];
                              ACase (cnd "bob" "" true false OpUnk) [AText (B " B")]] [AText (B " ?")] true;
+    AIfOK (B "nm") (B "has") (B "user.name") false false [AText (B " "); APrint [] (B "nm") [] [] [] false] [AText (B " anon")] true;
+    AIfOK (B "nm") (B "has") (B "user.nick") false true [AText (B " nonick")] [] false;
     ACtx (B "x") (B "user.age") [] false []; ACounter (B "n") true OpUnk 5; ACounter (B "n") false OpInc 2;
     AText (B " "); APrint [] (B "x") [] [] [] false; APrint [] (B "n") [] (B "/") [] false;
     AExit; AText (B "unreached") ].
@@ -192,8 +207,8 @@ Example sample_supported : forallb (wf_supported true) t_sample = true.
 Proof. vm_compute. reflexivity. Qed.
 
 Example sample_agrees :
-  mout t_sample c_sample = Some (B "Hi BOB: 0,1,2 a|b&lt; adult B 42/7", Some EInterrupt) /\
-  rout t_sample c_sample = (B "Hi BOB: 0,1,2 a|b&lt; adult B 42/7", SExit).
+  mout t_sample c_sample = Some (B "Hi BOB: 0,1,2 a|b&lt; adult B bob nonick 42/7", Some EInterrupt) /\
+  rout t_sample c_sample = (B "Hi BOB: 0,1,2 a|b&lt; adult B bob nonick 42/7", SExit).
 Proof. vm_compute. split; reflexivity. Qed.
 
 (* separators are escaped by the bound tag in effect, like static text, on both sides *)
@@ -202,3 +217,26 @@ Definition t_sep_region :=
 Example separator_in_region_agrees :
   mout t_sep_region ctx_new = Some (B "0&lt;1&lt;2", None) /\ rout t_sep_region ctx_new = (B "0&lt;1&lt;2", SNone).
 Proof. vm_compute. split; reflexivity. Qed.
+
+(* signals and writer faults leave an if-ok block (the defect fixed in the engine was that errors
+   raised inside the block were swallowed) *)
+Definition t_exit_in_ifok :=
+  [AIfOK (B "v") (B "ok") (B "u") false false [APrint [] (B "v") [] [] [] false; AExit] [AText (B "F")] true; AText (B "after")].
+Example exit_in_ifok_agrees :
+  mout t_exit_in_ifok c_ifok = Some (B "bob", Some EInterrupt) /\ rout t_exit_in_ifok c_ifok = (B "bob", SExit).
+Proof. vm_compute. split; reflexivity. Qed.
+
+Definition t_break_in_ifok :=
+  [ACLoop (B "i") (B "0") (B "3") true true OpLt OpInc []
+     [AText (B "a"); AIfOK (B "v") (B "ok") (B "e") false true [ABreak false 1 false no_cond] [] false; AText (B "b")] [] false;
+   AText (B "z")].
+Example break_in_ifok_agrees :
+  mout t_break_in_ifok c_ifok = Some (B "az", None) /\ rout t_break_in_ifok c_ifok = (B "az", SNone).
+Proof. vm_compute. split; reflexivity. Qed.
+
+Example writer_fault_in_ifok_reported :
+  match run_nodes [] nolook 100 noinc (compile_tpl t_exit_in_ifok) c_ifok (wr_new (Some 1%nat) 0) with
+  | Out _ w e => (wr_bytes w, e, w_failed w) = ([], Some EWriter, true)
+  | _ => False
+  end.
+Proof. vm_compute. reflexivity. Qed.
